@@ -317,6 +317,12 @@ def stable_hash(rep: Report, prog: Program, resolver: Resolver, rid: str) -> Non
         calls = sorted({x.func.attr for d in ("__hash__", "__eq__") if d in ci.methods for x in ast.walk(prog.functions[ci.methods[d]].node)
                         if isinstance(x, ast.Call) and isinstance(x.func, ast.Attribute) and isinstance(x.func.value, ast.Name)
                         and x.func.value.id in (prog.functions[ci.methods[d]].params()[0], prog.functions[ci.methods[d]].params()[-1])})
+        if "__eq__" in ci.methods and any(isinstance(x, ast.Call) and isinstance(x.func, ast.Name) and x.func.id == "hash"
+                                          for x in ast.walk(prog.functions[ci.methods["__eq__"]].node)):
+            rep.fail(rid, f"{cls}:equality-by-hash", f"{cls}.__eq__ compares hashes: hash values collide (hash(-1) == hash(-2) in CPython, 64-bit folding), so two "
+                     f"different interned {cls} objects compare equal and every table keyed by them returns the other one's entry",
+                     prog.functions[ci.methods["__eq__"]].where())
+            continue
         if calls or hashed - KEY - {"__class__"}:
             rep.fail(rid, f"{cls}:coarse-equality", f"{cls} overrides __eq__/__hash__ through {calls or sorted(hashed - KEY)} instead of its interning key "
                      f"{sorted(KEY)}: different interned {cls} objects can compare equal (floats underflow, round, tie), and every table keyed by them - "
